@@ -62,7 +62,11 @@ CLAIMS.update({
      'rule, call frames, store of list cells, active-context stack; rounded operators are Round(ctx, Exact(op))). Generated programs '
      '(source text -> real @fpy front end -> real AST -> JSON) are run by TLC for every recorded argument vector and caller context; '
      'the Judge action compares the machine outcome with what the real interpreter returned (value incl. sign of zero / NaN / lists / '
-     'tuples, or an error), and the machine invariants CtxDiscipline and StoreGrowsOnly are checked on every transition.'),
+     'tuples, or an error), and the machine invariants CtxDiscipline and StoreGrowsOnly are checked on every transition. Hand-written '
+     'programs cover what the generator does not reach (counting-down ranges, fp.empty in 1-3 dimensions, shared rows, slices) and the '
+     'repository\'s own libraries (61 functions) run on the machine too. In addition spec/StmtTrace.tla validates statement-level '
+     'traces of the REAL interpreter (sys.settrace; no hook): it keeps the stack of enclosing with-blocks and checks on every event '
+     'that the compiled code\'s active context is the one the documented scoping gives (tampered traces are rejected on every run).'),
      note='Values bounded (numerator/denominator < 2^15, else the run is skipped and counted); binary64 as default context only on '
           'exactly representable results; wide Python values travel as opaque tokens; calls inside conditionals/comprehensions unsupported.'),
  'C07': dict(engine='Equiv', technique=TECH_M, text=(
@@ -177,9 +181,13 @@ CLAIMS.update({
      'that the statement which last defined it (tracked by the extra variable dsite, loop re-bindings included) is among the definitions '
      'listed as reaching the read (DefineUse / ReachingDefs, phi nodes expanded), and that any two names of the frame holding the same '
      'list cell are reported as possibly aliased (Alias regions). Hand + generated programs x argument vectors x caller contexts; the '
-     'run outcome is judged against the real interpreter as in C04.'),
+     'run outcome is judged against the real interpreter as in C04. The same facts (plus conditions reported constant, facts about '
+     'returned expressions, and purity as a frame condition on statements whose calls are all reported pure) are checked by '
+     'spec/StmtTrace.tla on statement-level traces of the REAL interpreter, which also covers programs with calls, isnormal, binary64 '
+     'arithmetic and the library functions.'),
      note='Main function only, programs without user calls; size facts are judged on runs that complete (sizes are unified from the '
-          'preconditions of later operations such as zip). escape / purity / live_vars / context_use facts are not attached.'),
+          'preconditions of later operations such as zip). escape / live_vars facts are not attached; a fact about a sub-expression is '
+          'observed only through an assignment, a return or a whole condition.'),
 })
 
 CLAIMS.update({
@@ -220,7 +228,8 @@ CLAIMS.update({
 })
 
 ENGINES = [
- ('Agree', 'spec/Agree.tla', ['C11'], 'bit-for-bit agreement of result structures'),
+ ('Agree', 'spec/Agree.tla', ['C07', 'C08', 'C09', 'C11', 'C12'], 'bit-for-bit agreement of result structures (compiled code vs interpreter; transformed vs original on interpreter outcomes; FPCore reference evaluator vs re-read function)'),
+ ('StmtTrace', 'spec/StmtTrace.tla', ['C04', 'C13'], 'trace validation of the real interpreter at statement grain (sys.settrace, no hook): environment, definition sites and the stack of with-block contexts as specification state'),
  ('Elementary', 'spec/Elementary.tla', ['C03'], 'correct rounding given an enclosure of the true value'),
  ('WideRound', 'spec/WideRound.tla', ['C03'], 'correct rounding at wide precisions on multi-limb integers'),
  ('FactMachine', 'spec/FactMachine.tla', ['C13'], 'abstract machine with analysis facts checked on every step'),
